@@ -36,6 +36,21 @@ def log(*a):
 def load_cfg(prop):
     cdir = os.path.join(VERIF, "contracts", prop)
     cfg = tomllib.load(open(os.path.join(cdir, "check.toml"), "rb"))
+    # [[harness_matrix]]: template "c13_a64_{k}_{o}" expanded over k (list) x o (table name->statement)
+    hs = list(cfg.get("harness", []))
+    for mx in cfg.get("harness_matrix", []):
+        for k in mx["k"]:
+            for o, stmt in mx["o"].items():
+                name = mx["template"].format(k=k, o=o)
+                if name in mx.get("skip", []):
+                    continue
+                h = {kk: vv for kk, vv in mx.items() if kk not in ("template", "k", "o", "skip", "overrides")}
+                h["name"] = name
+                h["obligation"] = stmt.format(k=k)
+                h["function"] = mx.get("function", "").format(k=k)
+                h.update(mx.get("overrides", {}).get(name, {}))
+                hs.append(h)
+    cfg["harness"] = hs
     return cfg, cdir
 
 
@@ -153,6 +168,7 @@ def list_harness_fullnames(scratch, cfg, cdir, pkgs, logf):
     """Map short harness name -> fully qualified name using the harness module paths."""
     # Derived statically: module path of the target file + woven module name + fn name.
     names = {}
+    default_prefix = None
     for mod in cfg.get("module", []):
         rel = mod["file"]
         parts = rel.split("/")
@@ -164,12 +180,28 @@ def list_harness_fullnames(scratch, cfg, cdir, pkgs, logf):
                 continue
             modpath.append(s)
         name = "__verif_" + re.sub(r"\W", "_", os.path.splitext(os.path.basename(mod["source"]))[0])
+        if default_prefix is None:
+            default_prefix = "::".join(modpath + [name])
         text = open(os.path.join(cdir, mod["source"])).read()
         masked = rustscan.mask(text)
         for m in re.finditer(r"#\[kani::proof(?:_for_contract\([^)]*\))?\]", masked):
             fm = re.compile(r"\bfn\s+(\w+)").search(masked, m.end())
             if fm:
                 names[fm.group(1)] = "::".join(modpath + [name, fm.group(1)])
+    # macro-generated harnesses (paste!) are not visible to the scanner: they live in the module
+    # named by the harness's `module` key, or in the first module
+    for h in cfg.get("harness", []):
+        if h["name"] not in names:
+            pref = default_prefix
+            if h.get("module"):
+                for mod in cfg.get("module", []):
+                    if os.path.splitext(os.path.basename(mod["source"]))[0] == h["module"]:
+                        parts = mod["file"].split("/")[2:]
+                        mp = [x[:-3] if x.endswith(".rs") else x for x in parts]
+                        mp = [x for x in mp if x not in ("lib", "mod", "main")]
+                        pref = "::".join(mp + ["__verif_" + re.sub(r"\W", "_", h["module"])])
+            if pref:
+                names[h["name"]] = pref + "::" + h["name"]
     return names
 
 
@@ -209,6 +241,11 @@ def try_replay(scratch, cfg, cdir, h, fullnames, logf):
         p = os.path.join(scratch, os.path.dirname(mod["file"]), name + ".rs")
         if re.search(r"\bfn\s+" + re.escape(rname) + r"\b", open(p).read()):
             target = p
+    if not target and cfg.get("module"):
+        # macro-generated harness: use the first module (fullnames() applies the same rule)
+        mod = cfg["module"][0]
+        name = "__verif_" + re.sub(r"\W", "_", os.path.splitext(os.path.basename(mod["source"]))[0])
+        target = os.path.join(scratch, os.path.dirname(mod["file"]), name + ".rs")
     if not target:
         info["notes"].append("could not locate harness module for playback")
         return info
